@@ -138,6 +138,7 @@ def cases(tier):
         out.append(("pow", backend, 0, 0, tier))
         out.append(("missing", backend, 0, 0, tier))
         out.append(("lists", backend, 0, 0, tier))
+        out.append(("listdriver", backend, 0, 0, tier))
     # one case per (target, rotation, granularity) so that the interleaving explorations run in parallel
     nvar = 3 * (2 if tier == "thorough" else 1)
     for i in range(nvar):
@@ -484,10 +485,71 @@ def run_race(case):
     return list(uniq.values()), stats["n"], len(outcomes) > 1, stats
 
 
+def run_listdriver(case):
+    """the periodic driver of the list builder: a pass that fails (the list query raises once) does not stop the refreshes that follow"""
+    from ..harness import World
+    import nostr_relay.dynamic_lists as D
+
+    _, backend, _, _, tier = case
+    seq.close_all()
+    viol = []
+    cid = "listdriver|%s" % backend
+    allow_q = [{"kinds": [3]}]
+    k = [PK["K1"], PK["K2"]]
+    w = World(backend, config={"dynamic_lists": {"allow_list_queries": allow_q, "check_interval": 100}}, storage_options={"stats_interval": 1e15}, message_timeout=1e300)
+    ns = w.ns
+    real_get = D.get_storage
+    n = 0
+    try:
+        Ev = ns.base.Event
+        state = {"results": [Ev(**make_event("A", 3, NOW - 1, [["p", k[0]]], ""))], "fail_next": False, "calls": 0}
+
+        class Stub:
+            async def run_single_query(self, queries):
+                state["calls"] += 1
+                if state["fail_next"]:
+                    state["fail_next"] = False
+                    raise RuntimeError("injected failure of the list query")
+                for e in state["results"]:
+                    yield e
+
+        D.get_storage = lambda: Stub()
+        D.ALLOWED_PUBKEYS.clear()
+        D.DENIED_PUBKEYS.clear()
+        b = D.ListBuilder()
+        w.call(b.start(), 10.0)
+        w.run(horizon=10)  # the pass at start
+        first = {x.hex() for x in D.ALLOWED_PUBKEYS}
+        if k[0] not in first:
+            viol.append({"case": cid, "clause": "allow-list-exactly-p-tagged-plus-static", "sig": "start", "detail": "the pass at start did not load the list: %r" % sorted(x[:6] for x in first)})
+        # the next pass fails; the list changes afterwards; the passes that follow must pick the change up
+        state["fail_next"] = True
+        w.run(horizon=101)
+        state["results"] = [Ev(**make_event("A", 3, NOW, [["p", k[1]]], ""))]
+        w.run(horizon=101)
+        w.run(horizon=101)
+        n = state["calls"]
+        got = {x.hex() for x in D.ALLOWED_PUBKEYS}
+        if k[1] not in got or k[0] in got:
+            viol.append({"case": cid, "clause": "allow-list-exactly-p-tagged-plus-static", "sig": "after-failed-pass",
+                         "detail": "two intervals after a failed refresh the allow list is %r, the list events name only %s (%d list queries ran): the periodic driver stopped" % (
+                             sorted(x[:6] for x in got), k[1][:6], n)})
+        w.call(b.stop(), 10.0)
+    finally:
+        D.get_storage = real_get
+        D.ALLOWED_PUBKEYS.clear()
+        D.DENIED_PUBKEYS.clear()
+        ns.Config.dynamic_lists = None
+        w.close()
+    return viol, max(n, 1), True
+
+
 def run_case(case):
     mode = case[0]
     extra = {}
-    if mode == "pipe":
+    if mode == "listdriver":
+        viol, n, nt = run_listdriver(case)
+    elif mode == "pipe":
         viol, n, nt = run_pipe(case)
     elif mode == "pow":
         viol, n, nt = run_pow(case)
@@ -512,7 +574,7 @@ def coverage(tier, agg):
                 "unlisted authors, PoW 0/7/8/9 bits of 8 required, 2/3/4 p tags for kinds 1/7/3 with limit 3, service kind by service / other key, bad "
                 "signature; too large / too old / blacklisted / low-PoW / badly signed events of an ephemeral, a replaceable, a parameterized and a deletion kind), each PoW-ground to pass the remaining validators; pow: all 257 leading-zero-bit counts x thresholds {0,1,8,9,255,256}; "
                 "missing: configured validator with absent parameter (kinds, whitelist, blacklist, PoW, service key); lists: decision table of is_pubkey_allowed over enforced / "
-                "unenforced allow and deny lists; ListBuilder.run_once over all <= 3-subsets of 8 p-tag shapes x static "
+                "unenforced allow and deny lists; listdriver: the real periodic driver of the list builder with one failing pass in between; ListBuilder.run_once over all <= 3-subsets of 8 p-tag shapes x static "
                 "keys on/off with a stale entry present; race: every interleaving of the real run_once and is_pubkey_allowed at line%s granularity "
                 "with <= 2 preemptions for an outsider (judged) and an insider (reported)." % (
                     len(pipelines(tier)), "all" if tier == "thorough" else "every 9th of the", len(events()), " and opcode" if tier == "thorough" else ""),
